@@ -98,21 +98,27 @@ def build(config, tier):
                 c1 = "<%s>::%s(%s)" % (N, fn, ", ".join(a1))
                 c2 = "<%s>::%s(%s)" % (N, fn, ", ".join(a2))
             calls.append((fn, "{ %s let r1 = %s; let r2 = %s; check!(mk::vsame(&r1, &r2), \"%s::%s\"); }" % (" ".join(pre), c1, c2, N, fn)))
-        B = 4
-        stubs = ["sse"] + ["%s32" % u for u in UF_ALL]
+        # ALL primitive arithmetic uninterpreted (stub sets sse_uf + arith_uf32, constraint encoding): two runs that
+        # agree for every interpretation of + - * / sqrt ... as functions agree for the real ones; SAT cannot
+        # prove two copies of a real multiplier / divider equal (every arithmetic bundle timed out that way)
+        B = 1
+        stubs = ["sse_uf", "arith_uf32"] + ["%s32" % u for u in UF_ALL]
         for bi in range(0, len(calls), B):
             chunk = calls[bi:bi + B]
-            name = "c08_sse2_%s_tworun_%d" % (N.lower(), bi // B)
+            name = "c08_sse2_%s_tworun_%s" % (N.lower(), chunk[0][0])
             obs.append(Ob(name, PROP, "\n    ".join(c[1] for c in chunk), fn="%s::{%s}" % (N, ", ".join(c[0] for c in chunk)), kind="bundle", solver="cadical", stubs=stubs, clauses=len(chunk),
                           cls="bits", desc="%s::{%s}: bit-identical observable result for bit-identical visible lanes and independently arbitrary hidden lanes" % (N, ", ".join(c[0] for c in chunk))))
     # operators and conversions out
-    body = ("let (a1, a2) = mk::vec3a_pair(); let (b1, b2) = mk::vec3a_pair(); let s: f32 = vk::any(); let q = mk::<Quat>(); let (m1, m2) = mk::mat3a_pair(); let (f1, f2) = mk::affine3a_pair();\n"
-            "    check!(mk::vsame(&(a1 + b1), &(a2 + b2)) && mk::vsame(&(a1 - b1), &(a2 - b2)) && mk::vsame(&(a1 * b1), &(a2 * b2)) && mk::vsame(&(a1 / b1), &(a2 / b2)) && mk::vsame(&(a1 % b1), &(a2 % b2)) && mk::vsame(&(-a1), &(-a2)), \"vector operators\");\n"
-            "    check!(mk::vsame(&(a1 * s), &(a2 * s)) && mk::vsame(&(s * a1), &(s * a2)) && mk::vsame(&(a1 / s), &(a2 / s)) && mk::vsame(&(s / a1), &(s / a2)) && (a1 == b1) == (a2 == b2), \"scalar operators, ==\");\n"
-            "    check!(mk::vsame(&(q * a1), &(q * a2)) && mk::vsame(&(m1 * a1), &(m2 * a2)) && mk::vsame(&(m1 * m1), &(m2 * m2)) && mk::vsame(&(f1 * f1), &(f2 * f2)) && mk::vsame(&f1.transform_point3a(a1), &f2.transform_point3a(a2)), \"quaternion / matrix / affine products\");\n"
-            "    check!(mk::vsame(&Vec3::from(a1), &Vec3::from(a2)) && mk::vsame(&<[f32; 3]>::from(a1), &<[f32; 3]>::from(a2)) && mk::vsame(&Mat4::from_mat3a(m1), &Mat4::from_mat3a(m2)) && mk::vsame(&Mat4::from(f1), &Mat4::from(f2)) && mk::vsame(&Mat3::from(m1), &Mat3::from(m2)), \"conversions out\");")
-    obs.append(Ob("c08_sse2_operators_conversions", PROP, body, fn="operators / conversions of the padded types", kind="lemma", solver="cadical", stubs=["sse", "rem32"], clauses=4, cls="bits",
-                  desc="operators, ==, quaternion rotation, matrix/affine products and conversions out of Vec3A/Mat3A/Affine3A do not depend on hidden lanes"))
+    hd = "let (a1, a2) = mk::vec3a_pair(); let (b1, b2) = mk::vec3a_pair(); let s: f32 = vk::any(); let q = mk::<Quat>(); let (m1, m2) = mk::mat3a_pair(); let (f1, f2) = mk::affine3a_pair();\n    "
+    for (k_, txt) in enumerate((
+            "check!(mk::vsame(&(a1 + b1), &(a2 + b2)) && mk::vsame(&(a1 - b1), &(a2 - b2)) && mk::vsame(&(a1 * b1), &(a2 * b2)) && mk::vsame(&(a1 / b1), &(a2 / b2)) && mk::vsame(&(a1 % b1), &(a2 % b2)) && mk::vsame(&(-a1), &(-a2)), \"vector operators\");",
+            "check!(mk::vsame(&(a1 * s), &(a2 * s)) && mk::vsame(&(s * a1), &(s * a2)) && mk::vsame(&(a1 / s), &(a2 / s)) && mk::vsame(&(s / a1), &(s / a2)) && (a1 == b1) == (a2 == b2), \"scalar operators, ==\");",
+            "check!(mk::vsame(&(q * a1), &(q * a2)) && mk::vsame(&(m1 * a1), &(m2 * a2)) && mk::vsame(&f1.transform_point3a(a1), &f2.transform_point3a(a2)), \"quaternion / matrix / affine action\");",
+            "check!(mk::vsame(&(m1 * m1), &(m2 * m2)), \"Mat3A product\");",
+            "check!(mk::vsame(&(f1 * f1), &(f2 * f2)), \"Affine3A product\");",
+            "check!(mk::vsame(&Vec3::from(a1), &Vec3::from(a2)) && mk::vsame(&<[f32; 3]>::from(a1), &<[f32; 3]>::from(a2)) && mk::vsame(&Mat4::from_mat3a(m1), &Mat4::from_mat3a(m2)) && mk::vsame(&Mat4::from(f1), &Mat4::from(f2)) && mk::vsame(&Mat3::from(m1), &Mat3::from(m2)), \"conversions out\");")):
+        obs.append(Ob("c08_sse2_operators_conversions_%d" % k_, PROP, hd + txt, fn="operators / conversions of the padded types", kind="lemma", solver="cadical", stubs=["sse_uf", "arith_uf32"], cls="bits",
+                      desc="operators, ==, quaternion rotation, matrix/affine products and conversions out of Vec3A/Mat3A/Affine3A do not depend on hidden lanes (primitive arithmetic uninterpreted): " + txt.split('\"')[-2]))
     body = ("let v: [bool; 3] = vk::any(); let m1 = BVec3A::from_array(v); let m2 = mk::bvec3a_hidden(v); let w: [bool; 3] = vk::any(); let k1 = BVec3A::from_array(w); let k2 = mk::bvec3a_hidden(w);\n"
             "    check!(m1.bitmask() == m2.bitmask() && m1.any() == m2.any() && m1.all() == m2.all() && (m1 == k1) == (m2 == k2) && <[bool; 3]>::from(m1) == <[bool; 3]>::from(m2) && <[u32; 3]>::from(m1) == <[u32; 3]>::from(m2)\n"
             "        && (m1 & k1).bitmask() == (m2 & k2).bitmask() && (m1 | k1).bitmask() == (m2 | k2).bitmask() && (m1 ^ k1).bitmask() == (m2 ^ k2).bitmask() && (!m1).bitmask() == (!m2).bitmask() && m1.test(0) == m2.test(0) && m1.test(2) == m2.test(2), \"BVec3A observers\");\n"
@@ -122,6 +128,9 @@ def build(config, tier):
     obs.append(Ob("c08_sse2_canary_from_vec4_roundtrip", PROP,
                   'let (a1, a2) = mk::vec3a_pair(); let x: core::arch::x86_64::__m128 = a1.into(); let y: core::arch::x86_64::__m128 = a2.into(); let (p, q): ([u32; 4], [u32; 4]) = unsafe { (core::mem::transmute(x), core::mem::transmute(y)) }; check!(p[3] == q[3], "raw register hides the lane");',
                   fn="From<Vec3A> for __m128", kind="canary", expect="refute", desc="canary: the raw-register conversion DOES expose the hidden lane (shows the two runs really differ there)"))
+    if os.environ.get("C08_ACK") == "ite":
+        for o in obs:
+            o.ack = "ite"
     return obs, uncovered
 
 
